@@ -329,11 +329,11 @@ def parent_main(prop, tier, seed, replay=None):
     print("%s %s seed=%d: evaluations=%d distinct=%d skipped_band=%d known=%d new=%d wall=%.1fs" % (
         prop, tier, seed, merged["evaluations"], len(merged["fps"]), merged["skipped_band"], len(seen_known), len(new),
         wall))
+    for p in problems:
+        print("INCONCLUSIVE property=%s %s" % (prop, p[:3000]))
     if new:
         return 1
     if problems:
-        for p in problems:
-            print("INCONCLUSIVE property=%s %s" % (prop, p))
         return 2
     return 0
 
